@@ -20,6 +20,7 @@ def endings(rng):
     E.append(('mid-fragment', Scenario(reads([g + server_frame(1, b'he', fin=0)]) + [('wait', 0, ('eof',))], {}, prate=0)))
     E.append(('mid-fragment-abandon', Scenario(reads([g + server_frame(1, b'he', fin=0) + server_frame(9, b'')]), {4: [('abandon', 'drop')]}, prate=0)))
     E.append(('mid-utf8', Scenario(reads([g + server_frame(1, b'\xe2\x82', fin=0)]) + [('wait', 0, ('eof',))], {}, prate=0)))
+    E.append(('utf8-error', Scenario(reads([g + server_frame(1, b'ab\xff')]) + [('wait', 0, ('eof',))], {}, prate=0)))
     E.append(('deflate-negotiated', Scenario(reads([gz + server_frame(1, b'plain')]) + [('wait', 0, ('eof',))], {}, prate=0)))
     E.append(('while-closing', Scenario(reads([g + server_frame(1, b'x')]) + [('wait', 0, ('eof',))], {2: [('close', 1000, ('b', b'bye'))]}, prate=0)))
     E.append(('closing-timeout', Scenario(reads([g]) + [('wait', 5, None)] * 8, {2: [('close', 1000, ('b', b'bye'))]}, prate=0, ctimeout=10)))
@@ -45,9 +46,20 @@ def explore(res, tier, seed, model_ok=True):
                 'oracle: the second connection\'s trace equals the trace of the same history on a fresh object; non-trivial = every pair; distinct by (ending, next line)') % nnext
     nexts = []
     for i in range(nnext):
-        b = gen_core.gen_history(rng, n_steps=rng.randint(2, 7), timers=rng.random() < 0.5, p_good=0.95)
-        b.key_seed = 5 + i
+        b = gen_core.gen_history(rng, n_steps=rng.randint(2, 7), timers=rng.random() < 0.5, p_good=0.95, key_seed=5 + i)
         nexts.append(b)
+    # fixed next-connection histories that look at the state most likely to be stale
+    def fx(i, frames_after, rx=None, **kw):
+        s = Scenario([], rx or {}, **kw)
+        s.key_seed = 40 + i          # the reply must answer THIS connection's key
+        s.env = reads([s.good_reply()] + frames_after[0]) + frames_after[1]
+        return s
+    fixed_next = [
+        fx(0, ([server_frame(1, b'hello') + server_frame(0x1, '€'.encode())], [('wait', 0, ('eof',))]), prate=0),
+        fx(1, ([server_frame(0, b'cont')], [('wait', 0, ('eof',))]), prate=0),
+        fx(2, ([], [('wait', 5, None), ('wait', 5, None), ('wait', 0, ('eof',))]), {3: [('send_text', ('s', [104]), True)]}, prate=3, ptimeout=20),
+    ]
+    nexts = fixed_next + nexts
     chains, meta = [], []
     for name, a in endings(rng):
         for b in nexts:
@@ -74,6 +86,7 @@ def explore(res, tier, seed, model_ok=True):
         js, freal, fmodel = fresh_by_line[bline]
         res.case((name, bline))
         res.count('after_' + name)
+        res.count('next_reaches_ready' if 'E:ready' in freal else 'next_without_ready')
         got = tr[-1]
         if got != freal:
             res.failures.append(dict(cls='stale-state', what='connection after "%s" differs from the same history on a fresh WebSocket' % name,
